@@ -68,6 +68,15 @@ def build(rng, kind):
         freq = cf.SpectralFrame(axes_order=(1,), unit=(u.Hz,), name="freq", axes_names=("nu",))
         tm = cf.TemporalFrame(Time("2020-01-01T00:00:00"), unit=(u.s,), axes_order=(2,), name="time", axes_names=("t",))
         return wcs.WCS([(det, tr), (cf.CompositeFrame([spec, freq, tm], name="world"), None)]), 2, [0, 1]
+    if kind == "coupled2+spec":
+        # two tabulated groups, the first with two coupled world axes: table versions must still be 1, 2
+        tr = (models.AffineTransformation2D(matrix=[[0.5, 0.25], [0.1, 2.0]], translation=[1.0, 5.0])
+              & (models.Scale(0.5) | models.Shift(2.0)))
+        det = cf.CoordinateFrame(3, ("PIXEL",) * 3, (0, 1, 2), unit=(u.pix,) * 3, name="detector")
+        gen = cf.CoordinateFrame(2, ("SPATIAL", "SPATIAL"), (0, 1), unit=(u.m, u.m), name="plane", axes_names=("a", "b"),
+                                 axis_physical_types=("custom:a", "custom:b"))
+        spec = cf.SpectralFrame(axes_order=(2,), unit=(u.um,), name="wave", axes_names=("lambda",))
+        return wcs.WCS([(det, tr), (cf.CompositeFrame([gen, spec], name="world"), None)]), 3, [0, 1, 2]
     if kind == "degenerate2":
         # one pixel axis drives three world axes: two degenerate table axes in one group
         tr = models.Mapping((0, 0, 0)) | ((models.Scale(0.5) | models.Shift(2.0)) & (models.Scale(-3.0) | models.Shift(900.0)) &
@@ -98,8 +107,8 @@ def run(ctx):
     rng = ctx.rng
     problems, terms, meta = [], [], []
     terms_pc, meta_pc = [], []
-    kinds = ["spec1", "spec1-curved", "spec-time", "coupled2", "cube", "degenerate", "degenerate2"]
-    for ci in range(28 if ctx.quick else 350):
+    kinds = ["spec1", "spec1-curved", "spec-time", "coupled2", "cube", "degenerate", "degenerate2", "coupled2+spec"]
+    for ci in range(32 if ctx.quick else 400):
         kind = kinds[ci % len(kinds)]
         w, n, tab_axes = build(rng, kind)
         box = []
@@ -122,7 +131,7 @@ def run(ctx):
                 w.bounding_box = (0.0, 2.0) if n == 1 else tuple((0.0, 2.0 + i) for i in range(n))
         else:
             w.bounding_box = bb[0] if n == 1 else bb
-        via_to_fits = kind in ("cube", "degenerate") or rng.random() < 0.4
+        via_to_fits = kind in ("cube", "degenerate", "coupled2+spec") or rng.random() < 0.4
         try:
             with warnings.catch_warnings():
                 warnings.simplefilter("ignore")
@@ -138,6 +147,14 @@ def run(ctx):
         nontriv = any(lo % D or hi % D for lo, hi in box) or any((hi - lo) % s for (lo, hi), s in zip(box, samp))
         ctx.case(key=(kind, tuple(box), tuple(samp)), nontrivial=nontriv, kind=kind,
                  sample={"wcs": kind, "box": bb, "sampling": [s / D for s in samp], "keywords": {k: hdr[k] for k in list(hdr.keys())[:12]}})
+        # ---- table extensions: consecutive versions 1..k, and every -TAB axis points at one of them ----------------------
+        vers = [h.header.get("EXTVER") for h in hdus]
+        if via_to_fits and sorted(v for v in vers if v is not None) != list(range(1, len(hdus) + 1)):
+            problems.append((f"{kind}: the {len(hdus)} table extensions carry versions {vers}, not 1..{len(hdus)}", {"kind": kind, "box": bb}, None))
+        for k_ in [int(k[5:]) for k in hdr if k.startswith("CTYPE") and k[5:].isdigit() and str(hdr[k]).endswith("-TAB")]:
+            pv1 = hdr.get(f"PV{k_}_1")
+            if via_to_fits and (pv1 is None or int(pv1) not in [v for v in vers if v is not None]):
+                problems.append((f"{kind}: PV{k_}_1 = {pv1} names no table extension (versions {vers})", {"kind": kind, "box": bb}, None))
         # ---- header bookkeeping vs the model (tabulated axes) ------------------------------------------
         for iax in (range(n) if kind != "cube" else [2]):
             lo, hi = box[iax]
@@ -171,7 +188,7 @@ def run(ctx):
         # ---- PC row of every tabulated world axis vs TabAxes.v ---------------------------------------------------
         expect_axes = {"spec1": [(1, 1)], "spec1-curved": [(1, 1)], "spec-time": [(1, 1), (2, 2)], "coupled2": [(1, 1), (2, 2)],
                        "cube": [(3, 3)], "degenerate": [(1, 1), (2, 3), (3, 2)],
-                       "degenerate2": [(1, 1), (2, 2), (3, 3)]}[kind]       # (FITS world axis k1, image axis m1 it is read along)
+                       "degenerate2": [(1, 1), (2, 2), (3, 3)], "coupled2+spec": [(3, 3)]}[kind]       # (FITS world axis k1, image axis m1 it is read along)
         if not any(k.startswith("CD") and "_" in k for k in hdr):
             nfits = max([int(k[5:]) for k in hdr if k.startswith("CTYPE") and k[5:].isdigit()] + [m for _, m in expect_axes])
             for k1, m1 in expect_axes:
